@@ -29,6 +29,8 @@ ASSUMPTIONS = [
     "conductor stages follow commit 19d275f (a later stage reporting nil ahead of its turn is noted - its local channel set to nil - and conduct keeps waiting: label LPick at Sel1/Sel2 with watch flags). Termination in the model = every non-scene step decreases `measure` (48) + in every reachable non-returned state an obliged label is enabled (fairness); this covers every order and value in which the four components report and every select choice, but only for the channel expressions the model transcribes: a select that names the wrong (nil) channel, as in seed C07-c1, is outside the model and is caught end-to-end (signal while an action runs)",
     "Go's select may pick the scene timer although the prompter's context is cancelled (one more scene may start): not modelled (c07_no_scene_after_cancel_partial)",
     "end-to-end: the exit status is only required where the observations themselves show the fault happened at least 0.5 s before the play could have ended by itself; the status after SIGTERM is unconstrained (SIGTERM mid-play often yields 1: the quiesce SIGHUPs the spotlights before the prompter closed termCh)",
+    "a descendant of a spotlight that moved to another session (setsid) is outside what the play can signal: it is excused from the survivor count (and killed by the harness afterwards); what is required is that it does not keep the play from ending",
+    "a second SIGINT during a stuck shutdown re-raises the signal: only prompt termination (within 32 s of the first signal, against the 60 s hard limit) is required of that play",
     "a signal delivered before the binary installed its handlers kills it by default action (exit -sig, nothing ran): accepted",
     "processes are found by a per-play marker variable in /proc/<pid>/environ, scanned twice 0.4 s apart after the exit; zombies are not counted",
 ]
@@ -67,7 +69,12 @@ def report_stop(res, summary, vals):
 
 def signature(c, mask, names):
     f = c["Fault"]
-    if "hangs" in f and not (mask & ~(1 | 2 | 8 | 32)):
+    # The known finding: a redirected command that never ends is not interruptible.  Without a
+    # signal the play then never ends (bit 1); WITH a signal the one-minute hard limit must
+    # still end it (no final cleanup, the command left running: bits 2, 8) - so after a
+    # signal "did not terminate within the bound" is NOT part of the known finding.
+    excused = (2 | 8 | 32) if ("sigint" in f or "sigterm" in f) else (1 | 2 | 8 | 32)
+    if "hangs" in f and f != "action-hangs-two-sigints" and not (mask & ~excused):
         return KNOWN_HANG
     if f.startswith("spotlight-ignores-hup") and mask == 2:
         return "sighup-ignoring-group-member-survives"
